@@ -38,13 +38,13 @@ def generate(tier, seed):
     maxn = 3 if tier == "quick" else 4
     for n in range(0, maxn + 1):
         combos = list(itertools.product(ITEMS, repeat=n))
-        lim = 1500 if tier == "quick" else 30000
+        lim = 5000 if tier == "quick" else 100000
         if len(combos) > lim: combos = rng.sample(combos, lim)
         for t in combos:
             for tail in ([None] if rng.random() < 0.7 else [None, ",x", ",l3", "z", ",(tick 9)"]):
                 if n == 0 and tail: continue
                 temps.append((list(t), tail))
-    for _ in range(300 if tier == "quick" else 5000):
+    for _ in range(1500 if tier == "quick" else 40000):
         n = rng.randint(4, 8)
         temps.append(([rng.choice(ITEMS) for _ in range(n)], rng.choice([None, None, ",x", ",l1"])))
     lines = []
